@@ -181,6 +181,8 @@ class Run(object):
             return V("dct", 0, [self.enc(x[k]) for k in sorted(x)])
         if isinstance(x, BaseException):
             return V("x", self.exc_ids(x)[0])
+        if id(x) in self.obj_id:
+            return V("fut", self.obj_id[id(x)])
         return V("opaque", 0)
 
     def active_id(self):
@@ -429,6 +431,8 @@ class Run(object):
                         run.emit("SegEnd", t=t, k=k, b=2, s=V("N"), a=run.active_id())
                         while open_ctx:
                             open_ctx.pop().__exit__(None, None, None)
+                        if term.get("ret"):
+                            return run.task_obj[term["ret"]]      # a created-but-never-awaited task, handed out as a value
                         return R(t, recvs)
                     elif tk == "result":
                         run.emit("SegEnd", t=t, k=k, b=3, s=V("N"), a=run.active_id())
